@@ -88,6 +88,9 @@ Next ==
                   \cup (IF valid /\ ~ok THEN {V(ev, P13, ev.call \o " is not exact: " \o (IF ev.call = "ftran" THEN "B x = a" ELSE "y^T B = c^T") \o " does not hold ("
                                                        \o ToString(ev.etas) \o " updates since the last refactorisation, dimension " \o ToString(M.n) \o ")")} ELSE {})
              /\ UNCHANGED <<M, valid, rep, known, rounds>>
+          ELSE IF ev.call = "memcheck" THEN
+             /\ viol' = viol \cup (IF ev.errors > 0 THEN {V(ev, {"C17"}, "valgrind memcheck reports " \o ToString(ev.errors) \o " error(s): " \o ev.kinds \o " at " \o ev.sites)} ELSE {})
+             /\ UNCHANGED <<M, valid, rep, known, rounds>>
           ELSE IF ev.call = "shutdown" THEN
              /\ viol' = viol \cup (IF ev.leak > 0 THEN {V(ev, {"C18"}, "memory allocated by the LU component is still unreleased after the factor work was freed and the library shut down (LeakSanitizer)")} ELSE {})
              /\ UNCHANGED <<M, valid, rep, known, rounds>>
